@@ -209,6 +209,12 @@ func genStep(rt *rapid.T, p *Profile, cfg *Config, i int) Step { //nolint:cyclop
 		st.N = genLen(rt, p, "n")
 		st.Seed = rapid.Uint64Range(0, 1<<20).Draw(rt, "seed")
 		st.Content = rapid.SampledFrom([]string{"", "", "", "zero", "stun", "chandata", "x4000"}).Draw(rt, "content")
+	case "Hostile":
+		st.N = rapid.IntRange(0, 11).Draw(rt, "mode")
+		st.Seed = rapid.Uint64Range(0, 1<<24).Draw(rt, "hseed")
+		if rapid.IntRange(0, 4).Draw(rt, "stranger") == 0 {
+			st.Rel = "stranger"
+		}
 	case "Binding":
 		if rapid.IntRange(0, 3).Draw(rt, "txfrom") == 0 {
 			st.TxFrom = rapid.IntRange(1, nc).Draw(rt, "txFromC")
